@@ -595,6 +595,14 @@ SUBS = [
     Sub("distances", exec_pair, strategy=pair_cases(), quick=1200, thorough=96_000, shards_quick=16),
 ]
 
+# thorough tier: coverage-guided campaigns (atheris/libFuzzer mutating the bytes Hypothesis draws from)
+FUZZ = {
+    "subs": ["ops", "distances"],
+    "targets": ["cogent3.core.tree", "cogent3.parse.newick", "cogent3.parse.tree", "cogent3.phylo.tree_distance", "cogent3.util.deserialise"],
+    "execs_thorough": 60_000, "jobs_thorough": 4, "execs_quick": 1500, "jobs_quick": 2,
+}
+
+
 def _case_names(case):
     out = []
 
